@@ -10,7 +10,7 @@ import gtree as T           # noqa: E402
 import chem                 # noqa: E402
 
 PROP = "C02"
-DEPS = ["Spec/Smiles.v", "Spec/Chem.v", "Model/Gate.v", "Proofs/SmilesFacts.v"]
+DEPS = ["Spec/Smiles.v", "Spec/Chem.v", "Model/Gate.v", "Proofs/SmilesFacts.v", "Model/Merger.v", "Model/Splice.v", "Proofs/Embed.v", "Proofs/SpliceThm.v"]
 
 SUGARS = ["Glc", "Man", "Gal", "Fuc", "Xyl", "GlcNAc", "Neu5Ac", "Kdo", "Fruf", "Araf", "Rha", "GlcN", "GlcA", "Glc-ol", "Galf",
           "Neu", "Mur", "Api", "Hex", "Pen", "Ins", "Bac", "Qui", "Rib", "Sia", "Ko", "Dha", "Tyv", "Leg", "Sor", "Thre", "Xul"]
@@ -69,6 +69,11 @@ def make_inputs(r, tier, fgs):
     # depth: ring-closure labels run out at 100 nested residues
     for d in ([30, 99, 101] if tier == "quick" else [30, 60, 98, 99, 100, 101, 120]):
         items.append({"iupac": "Gal(b1-4)" * d + "Glc", "kw": {}, "kind": "deep"})
+    # parents that use several ring-closure labels themselves (anhydro bridges, cyclic groups)
+    for par, poss in (("1,6-Anhydro-Glc", (2, 3, 4)), ("1,6-Anhydro-Gal", (2, 3, 4)), ("3,6-Anhydro-Gal", (2, 4)), ("1,6-Anhydro-GlcNAc", (3, 4)),
+                      ("Glc3Bz", (2, 4, 6)), ("Glc2Bn", (3, 4, 6)), ("Man6Tr", (2, 3, 4)), ("Glc2Bz3Bz", (4, 6))):
+        for p_ in (poss if tier == "thorough" else r.sample(poss, 2)):
+            items.append({"iupac": f"Man(a1-3)Gal(b1-{p_}){par}", "kw": {}, "kind": "multiring"})
     # width
     items.append({"iupac": "Man(a1-2)[Gal(b1-3)][Fuc(a1-4)][Xyl(b1-6)]Glc", "kw": {}, "kind": "wide"})
     items.append({"iupac": "Man(a1-2)[Gal(b1-3)][Fuc(a1-4)][Xyl(b1-6)]Man(a1-4)Glc", "kw": {}, "kind": "wide"})
@@ -122,6 +127,27 @@ def run(tier):
             for f in ("formula", "rings", "components", "heavy"):
                 if rk[f] != d[f]:
                     oracle_notes.append({"smiles": s, "field": f, "rdkit": rk[f], "coq": d[f]})
+    # ring-closure labels: every substitution the merger makes is put to the splice check (hypothesis of the embedding theorem)
+    traced = [it for it in items if it["kind"] in ("tree", "deep", "wide", "multiring")]
+    touts = C.run_impl_parallel("merge_trace", [{"iupac": i["iupac"], "kw": i["kw"]} for i in traced])
+    splice = {"FRESH": 0, "REUSED": 0, "OTHER": 0, "reused_but_result_empty": 0}
+    for it, o in zip(traced, touts):
+        for nd in o["nodes"]:
+            ch = nd.get("children") or []
+            if not ch or nd.get("me") is None or any(c is None for c in ch):
+                continue
+            for k, v in enumerate(orc.drv.call("splicechildren", nd["me"], *ch).split("\t")):
+                splice[v.split(" ")[0]] = splice.get(v.split(" ")[0], 0) + 1
+                if v.startswith("REUSED"):
+                    if not o["smiles"]:
+                        splice["reused_but_result_empty"] += 1
+                        continue
+                    report.fail({"site": "splice", "kind": "label-reused-while-open", "input_kind": it["kind"]},
+                                {"input": it["iupac"], "options": it["kw"], "observed": o["smiles"][:400], "label": int(v.split(" ")[1]),
+                                 "host_string": nd["me"][:300], "child_string": ch[k][:300],
+                                 "problem": "a ring-closure label of the spliced child is open in the host at the splice point: the child closes a ring of the host",
+                                 "replay_cmd": "./check C02 --replay <this file>"})
+                    break
     orc.close()
     if oracle_notes:
         report.fail({"site": "oracle-O1", "kind": "coq-vs-rdkit"},
@@ -134,7 +160,7 @@ def run(tier):
                           "for inputs whose assembly goes wrong the only protection is the exit gate (the assembly theorem for well-formed inputs is C01's)"]
     extra = {"rule": "G-tree glycans in three notations, chemically meaningless combinations (12 shapes x all group tokens), token soup / truncations / control characters / 2000-character strings, 30-120 nested residues, 4-way branching; options full x tree_only x root_orientation x start; non-trivial = a non-empty result came back",
              "by_kind": kinds, "non_empty_results": nonempty, "gate_inputs_seen": gate_seen, "gate_rejections": gate_rejects,
-             "o1_rdkit_agreements": o1 - len(oracle_notes),
+             "o1_rdkit_agreements": o1 - len(oracle_notes), "splice_verdicts": splice,
              "print_assumptions": res.assumptions.get(f"Props/{PROP}.v", "").strip().splitlines()[-4:]}
     return report.finish("proof", ob, dis, names, trusted=C.TRUSTED, extra=extra)
 
@@ -146,5 +172,14 @@ def replay(path):
     d = orc.describe(o["smiles"]) if o["smiles"] else None
     print(json.dumps({"input": rp["input"], "now": o["smiles"], "verdict": d}, indent=1)[:3000])
     ok = (not o["smiles"]) or (d is not None and d["valid"])
+    if ok and o["smiles"]:
+        t = C.run_impl("merge_trace", {"items": [{"iupac": rp["input"], "kw": rp.get("options", {})}]})["results"][0]
+        for nd in t["nodes"]:
+            ch = nd.get("children") or []
+            if ch and nd.get("me") is not None and all(c is not None for c in ch):
+                vs = orc.drv.call("splicechildren", nd["me"], *ch)
+                if "REUSED" in vs:
+                    print("splice verdicts at node", nd["node"], ":", vs)
+                    ok = False
     print("property holds on this input" if ok else "property FAILS on this input")
     return 0 if ok else 1
